@@ -17,7 +17,7 @@ from harness.tables import walk
 PID = "C05"
 G = {}
 PLANT = ["corrupt-content-class", "corrupt-content-reject-class", "corrupt-content-reject-class", "add-unknown-child", "add-misplaced-child", "rename-unknown", "corrupt-attr", "add-attr", "drop",
-         "duplicate", "graft-under-metadata", "set-content-on-empty", "clear-content"]
+         "duplicate", "graft-under-metadata", "set-content-on-empty", "clear-content", "twin-corrupt-attr-value", "twin-corrupt-attr-value", "twin-corrupt-earlier"]
 
 
 def plant_at(node, kind, rnd, t):
@@ -109,6 +109,51 @@ def w_random(seeds):
     return evs, invalid_bases
 
 
+def w_twins(units):
+    """Look-alike pairs: two nodes of one rule inside ONE walk that agree in name, content, attribute NAMES and children and
+    differ only in the VALUE of an enumerated attribute (listed in one, unlisted in the other), in both document orders,
+    alone and with a third look-alike between them.  The tree's list must still be the concatenation of the per-node lists."""
+    from metapype.model.node import Node
+    from metapype.eml import validate
+    from harness import c01, c02
+    t = G["t"]
+    evs = []
+    for unit in units:
+        el = G["elem"].get(unit)
+        enum_attrs = [a for a, v in t.rules[unit][0].items() if len(v) > 1]
+        if not el or not enum_attrs:
+            continue
+
+        def make(attr=None, value=None):
+            p = c02.build_node(unit, el, None, False, t.rules, t.dfas) or c02.build_node(unit, el, None, True, t.rules, t.dfas)
+            if p is None:
+                return None
+            p.content = c01.parent_for(unit, el, t.rules).content
+            for a in enum_attrs:                      # every enumerated attribute present with a listed value
+                p.add_attribute(a, t.rules[unit][0][a][1])
+            if attr:
+                p.add_attribute(attr, value)
+            return p
+        for a in enum_attrs:
+            for order in ("good-bad", "bad-good", "good-good-bad", "bad-good-good"):
+                Node.store.clear()
+                root = Node("zzTwins")
+                ok = True
+                for k in order.split("-"):
+                    n = make(a, "zzUnlistedValue") if k == "bad" else make()
+                    if n is None:
+                        ok = False
+                        break
+                    root.add_child(n)
+                if not ok:
+                    continue
+                ev = valtrace.observe_tree(root)
+                ev["desc"] = {"base": "look-alike twins", "unit": unit, "element": el, "attribute": a, "order": order}
+                evs.append(ev)
+    Node.store.clear()
+    return evs
+
+
 def strip(ev):
     return {k: v for k, v in ev.items() if k != "desc"}
 
@@ -140,6 +185,14 @@ def run(rep, tier, seed):
     for chunk, bb in parallel(w_random, [seed * 100000 + i for i in range(nrand)]):
         evs += chunk
         bad_bases += bb
+    elem = {}
+    for el_, ru in t.node_map.items():
+        if el_ != "metadata":
+            elem.setdefault(ru, el_)
+    G["elem"] = elem
+    twins = [e for chunk in parallel(w_twins, sorted(t.rules)) for e in chunk]
+    rep.notes["look_alike_twin_trees"] = len(twins)
+    evs += twins
     rep.notes["generated_bases_not_valid"] = bad_bases[:5]
     if bad_bases:
         # a base that does not validate is a C10/C01 matter; it still is a legitimate C05 input
